@@ -167,15 +167,31 @@ func runC14(t *T) {
 	c := t.C
 	defer beginTrial(t, true)()
 	kind := c.Draw(3)
-	faultKind := []string{"", "Set", "Get", "Data", "ReadDirNames", "Transaction"}[c.Weighted(3, 4, 3, 2, 2, 1)]
+	faultKind := []string{"", "Set", "Get", "Data", "ReadDirNames", "Transaction"}[c.Weighted(2, 4, 3, 3, 2, 1)]
 	plan := &faultPlan{t: t, kind: faultKind}
 	plan.at = c.Draw(map[string]int{"": 30, "Set": 6, "Get": 20, "Data": 3, "ReadDirNames": 3, "Transaction": 20}[faultKind])
 	ambig := c.Chance(1, 4)
 	names := []string{"a", "b", "a/c", "d"}
 	n := 2 + c.Draw(10)
 	ops := make([]cOp, n)
+	handleHeavy := c.Chance(1, 3) // open a handle early and mostly do I/O through it
 	for i := range ops {
 		ops[i] = genC14Op(t, names, i+1)
+		if handleHeavy {
+			switch {
+			case i == 0:
+				ops[i] = cOp{H: "HOpen", Op: Op{P: []string{"b", "a", "d"}[c.Draw(3)], Flag: []int{hackpadfs.FlagReadWrite, hackpadfs.FlagReadWrite | hackpadfs.FlagCreate, hackpadfs.FlagWriteOnly, hackpadfs.FlagReadWrite | hackpadfs.FlagAppend}[c.Draw(4)]}}
+			case c.Chance(2, 3):
+				switch c.Draw(4) {
+				case 0, 1:
+					ops[i] = cOp{H: "HWrite", Op: Op{Data: uniqueData(i+1, []int{3, 9, 1}[c.Draw(3)])}}
+				case 2:
+					ops[i] = cOp{H: "HRead", N: []int{4, 16}[c.Draw(2)]}
+				default:
+					ops[i] = cOp{H: "HTruncate", N: c.Draw(6)}
+				}
+			}
+		}
 	}
 	cands := append([]string{"."}, candidatePaths([]string{"a", "b", "c", "d"}, 2)...)
 	inBubble(t, 50000, func(s *Sched) {
